@@ -46,7 +46,7 @@ ASSUMPTIONS = [
     "same bytes; values containing non-finite floats are excluded from this clause",
     "for accepted foreign payloads one decode-encode pass must reach a fixed point that decodes to the same value",
 ]
-MUST_REACH = {"serializer_keys_covered": 180, "int_raw_checks": 100000, "byte_payload_checks": 1000,
+MUST_REACH = {"quantised_raws_placed_in_payloads": 300, "payloads_decoded_after_an_edit_elsewhere": 2000, "serializer_keys_covered": 180, "int_raw_checks": 100000, "byte_payload_checks": 1000,
               "fuzz_accepted": 50, "literal_checks": 10000, "literal_checks_through_library_printer": 5000, "refused_encodes_before_good_ones": 60, "template_reloads_provoked": 3, "entry_orders_compared": 500, "blocks_moved_between_messages": 4, "calls_from_concurrent_threads": 300, "values_encoded_after_template_reload": 20, "block_api_checks": 500, "block_member_assignments": 50, "block_pretty_assignments": 100, "block_values_scribbled": 40, "tz_covered": 3,
               "negative_raws_on_signed_flag_fields": 10, "context_values": 20}
 
@@ -499,10 +499,21 @@ def check_bytes_key(ctx, rng, key, ser, var):
                 except gen_spec.Unsupported as e:
                     ctx.count("unsupported_values")
                     ctx.cover("unsupported", str(e)[:50])
+                    del gen_spec.RAW_NOT_REPRODUCED[:]
                     continue
                 except Exception as e:
                     ctx.count("value_generation_failed")
                     ctx.cover("valuegen_fail", f"{name}:{type(e).__name__}:{str(e)[:40]}")
+                    del gen_spec.RAW_NOT_REPRODUCED[:]
+                    continue
+                if gen_spec.RAW_NOT_REPRODUCED:
+                    # a quantised field of this payload was meant to hold a particular raw integer; the value that raw decodes to
+                    # encodes as another raw, so decode -> encode cannot give such a payload back
+                    bad = gen_spec.RAW_NOT_REPRODUCED[0]
+                    del gen_spec.RAW_NOT_REPRODUCED[:]
+                    ctx.violation(f"payload-raw-not-reproduced:{name}:{bad['spec']}", "a payload holding this raw integer in a quantised "
+                                  "field does not survive decode -> encode (the field comes back as another raw)",
+                                  {"key": list(key), "context": label, **bad})
                     continue
                 try:
                     p = ser.serialize(block, v)
@@ -549,6 +560,8 @@ def check_bytes_key(ctx, rng, key, ser, var):
                     payload_laws(ctx, key, label, ser, block, p, "raw", own=False)
         if first_payloads is None:
             first_payloads = (label, block, list(payloads[:3]))
+        if tmpl is not None and len(payloads) >= 2:
+            edited_results_do_not_leak(ctx, key, label, ser, block, payloads)
         # empty and tiny payloads (e.g. a count byte of zero)
         for tiny in (b"", b"\x00", b"\x00\x00", b"\x00\x00\x00\x00", b"\x01"):
             payload_laws(ctx, key, label, ser, block, tiny, "tiny", own=False)
@@ -755,6 +768,119 @@ def encode_after_template_reload(ctx):
         ctx.count("values_encoded_after_template_reload")
 
 
+def _scribble_all(v, depth=0):
+    """Edit EVERY editable leaf of a decoded value in place (nested members of dataclasses, dicts and lists: flags flipped, numbers
+    bumped, enum members swapped). Returns the number of edits."""
+    import dataclasses
+    import enum
+    from hippolyzer.lib.base.datatypes import TaggedUnion
+    if depth > 6:
+        return 0
+    if hasattr(type(v), "__wrapped__") or type(v).__name__ == "Proxy":
+        try:
+            v = v.__wrapped__
+        except Exception:
+            return 0
+
+    def other(x):
+        if isinstance(x, bool):
+            return not x
+        if isinstance(x, enum.Flag):
+            members = list(type(x))
+            return ~x & type(x)(sum(int(m) for m in members)) if members else x
+        if isinstance(x, enum.Enum):
+            members = [m for m in type(x) if m is not x]
+            return members[0] if members else x
+        if isinstance(x, int):
+            return x + 1
+        if isinstance(x, float):
+            return x + 0.5
+        if isinstance(x, str):
+            return x + "~"
+        return x
+    n = 0
+    if isinstance(v, TaggedUnion):
+        return _scribble_all(v.value, depth + 1)
+    if isinstance(v, dict):
+        for k in list(v.keys()):
+            x = v[k]
+            if isinstance(x, (dict, list)) or (dataclasses.is_dataclass(x) and not isinstance(x, type)) or isinstance(x, TaggedUnion):
+                n += _scribble_all(x, depth + 1)
+            else:
+                y = other(x)
+                if y is not x:
+                    try:
+                        v[k] = y
+                        n += 1
+                    except Exception:
+                        pass
+        return n
+    if isinstance(v, list):
+        for i, x in enumerate(list(v)):
+            if isinstance(x, (dict, list)) or (dataclasses.is_dataclass(x) and not isinstance(x, type)) or isinstance(x, TaggedUnion):
+                n += _scribble_all(x, depth + 1)
+            else:
+                y = other(x)
+                if y is not x:
+                    v[i] = y
+                    n += 1
+        return n
+    if dataclasses.is_dataclass(v) and not isinstance(v, type):
+        for f in dataclasses.fields(v):
+            x = getattr(v, f.name, None)
+            if isinstance(x, (dict, list)) or (dataclasses.is_dataclass(x) and not isinstance(x, type)) or isinstance(x, TaggedUnion):
+                n += _scribble_all(x, depth + 1)
+            else:
+                y = other(x)
+                if y is not x:
+                    try:
+                        setattr(v, f.name, y)
+                        n += 1
+                    except Exception:
+                        pass
+        return n
+    return 0
+
+
+def edited_results_do_not_leak(ctx, key, label, ser, block, payloads):
+    """What the serializer hands out is the caller's (an addon decodes, tweaks, encodes). Every editable leaf of one decoded value is
+    edited in place - in object form and in plain-data form; decoding the same payload again, and every OTHER payload of the batch,
+    still gives what those payloads hold, and they still encode to themselves."""
+    name = ser_name(ser)
+    for pod in (False, True):
+        try:
+            fresh = [gen_spec.canon(ser.deserialize(block, p, pod=pod)) for p in payloads[:8]]
+        except Exception:
+            return
+        for i, p in enumerate(payloads[:4]):
+            try:
+                victim = ser.deserialize(block, p, pod=pod)
+                edits = _scribble_all(victim)
+            except Exception:
+                continue
+            if not edits:
+                continue
+            ctx.count("decoded_values_edited_everywhere")
+            for j, q in enumerate(payloads[:8]):
+                ctx.ev()
+                try:
+                    d = ser.deserialize(block, q, pod=pod)
+                    c = gen_spec.canon(d)
+                    re = bytes(ser.serialize(block, d))
+                except Exception as e:
+                    ctx.violation(f"decode-after-edit-raises:{name}", "decoding / encoding a payload raised after another decoded value had "
+                                  "been edited in place", {"key": list(key), "context": label, "payload": q[:200], "pod": pod,
+                                                           "exc": repr(e)[:200]})
+                    return
+                if c != fresh[j] or re != q:
+                    ctx.violation(f"decode-depends-on-earlier-result:{name}", "after a decoded value was edited in place, a payload "
+                                  "decodes to something else than before (or no longer encodes to itself)",
+                                  {"key": list(key), "context": label, "edited_payload": p[:200], "payload": q[:200], "pod": pod,
+                                   "same_payload": i == j, "before": repr(fresh[j])[:300], "after": repr(c)[:300], "reencoded": re[:200]})
+                    return
+                ctx.count("payloads_decoded_after_an_edit_elsewhere")
+
+
 def _scribble(v, depth=0):
     """Edit a decoded value in place somewhere (first mutable container found). Returns True if something was changed."""
     import dataclasses
@@ -838,6 +964,7 @@ def run(ctx):
         if len(ctx.samples) < 3:
             ctx.sample({"key": list(key), "serializer": name, "wire_type": var.type.name, "tz": tz})
     ctx.flag("stale_registrations", stale)
+    ctx.count("quantised_raws_placed_in_payloads", gen_spec.RAW_TRIED[0])
     threads_phase(ctx)
     if ctx.shard == 0:
         blocks_moved_between_messages(ctx)
